@@ -1,6 +1,6 @@
 """C16 — only real, non-excluded keyboards are selected, whichever way they are named."""
 from .. import mir, hirq, hircanon
-from ..mir import T, show, method_name, const_int, Walker
+from ..mir import T, show, method_name, const_int, Walker, mentions
 from ..report import Unrecognised
 
 LEVEL = "other"
@@ -15,6 +15,9 @@ META = {
                    "filter pushes iff found ∧ ¬(only-if-keyboard ∧ ¬is_keyboard) ∧ ¬excluded."),
     "level_note": "Trusted: WildMatch glob semantics, sysfs/canonicalize behaviour, std string methods; whether the heuristic itself is a good definition of 'keyboard' is not judged. rustc HIR/MIR, tmfacts.",
 }
+# --- additions to the level description (rules added after the first version)
+META['level_text'] += " R3 also: the device node is /dev/<DEVNAME of the device's uevent>. R4 also: a --dev-file argument is passed over only if its path does not resolve, it is not listed, it is excluded, or it is not a keyboard under --only-if-keyboard; every listed device whose path resolves enters the look-up table; every selected path is opened, every driver gets a thread. R7: --auto-all-keyboards opens a listed, non-excluded device exactly when no running loop has its dev_path."
+# --- end additions
 
 E1 = "keyboard_listing::extract_keyboards_from_proc_bus_input_devices"
 E2 = "keyboard_listing::extract_input_devices_from_proc_bus_input_devices"
@@ -271,6 +274,31 @@ def run(ctx):
                     ck.ob("C16-R4", fd.path, "--dev-file:pushed-iff-found∧¬(only-if-keyboard∧¬is_keyboard)∧¬excluded", ok, site=e.span,
                           detail="found %s excluded %s only-if-keyboard %s is_keyboard %s" % (found, excl, skip, isk))
     ck.floor("C16-R4", "dev-file-push-paths", n, 1)
+    # ... and the converse ("every other keyboard-like device is"): an argument is passed over only for one of the stated
+    # reasons -- its path cannot be resolved, it is not in the device list, it is excluded, or it is not a keyboard while
+    # --only-if-keyboard was given
+    n_skip = 0
+    for h in sorted(fd.loops()):
+        paths = mir.walk_loop_only(fd, h)
+        if not any(e.kind == "call" and method_name(e.a) == "push" and len(e.b) == 2 and " str" in fd.blocks[e.blk]["term"]["callee"].get("args", "") for p in paths for e in p.events):
+            continue
+        for p in paths:
+            if p.outcome != ("backedge", h):
+                continue
+            if any(e.kind == "call" and method_name(e.a) == "push" and len(e.b) == 2 and " str" in fd.blocks[e.blk]["term"]["callee"].get("args", "") for e in p.events):
+                continue
+            g = [(x.a, x.b) for x in p.events if x.kind == "guard"]
+            found = [v for a, v in g if isinstance(a, tuple) and a[0] == "variantof" and isinstance(a[1], tuple) and a[1][0] == "call" and method_name(a[1][1]) == "get" and "HashMap" in a[1][1]]
+            excl = [v for a, v in g if isinstance(a, tuple) and a[0] == "field" and a[2] == "excluded"]
+            skip = [v for a, v in g if isinstance(a, tuple) and a[0] == "param" and a[2] == "skip_non_keyboard"]
+            isk = [v for a, v in g if isinstance(a, tuple) and a[0] == "field" and a[2] == "is_keyboard"]
+            unresolved = [v for a, v in g if isinstance(a, tuple) and a[0] == "variantof" and isinstance(a[1], tuple) and a[1][0] == "call"
+                          and (method_name(a[1][1]) in ("canonicalize", "to_str")) and v in ("Err", "None")]
+            n_skip += 1
+            reason = bool(unresolved) or (found and found[0] != "Some") or excl == [True] or (skip == [True] and isk == [False])
+            ck.ob("C16-R4", fd.path, "--dev-file:passed-over-only-if-unresolvable∨not-listed∨excluded∨(only-if-keyboard∧¬is_keyboard)", bool(reason),
+                  detail=None if reason else "an argument is dropped with found %s excluded %s only-if-keyboard %s is_keyboard %s" % (found, excl, skip, isk))
+    ck.floor("C16-R4", "dev-file-skip-paths", n_skip, 2)
     hm = ctx.hir("remapping_loop::do_remapping_loop_multiple_devices")
     ok = len(list(hirq.calls(hm["body"], path="remapping_loop::filter_devices_verbose"))) == 1
     ck.ob("C16-R4", "remapping_loop::do_remapping_loop_multiple_devices", "--dev-file-arguments-pass-through-filter_devices_verbose", ok)
@@ -282,10 +310,136 @@ def run(ctx):
     ck.ob("C16-R4", "-", "open_device-callers", set(o.split("::{closure")[0] for o in openers) <= {"remapping_loop::do_remapping_loop_auto_all_devices", "remapping_loop::do_remapping_loop_these_devices"}, detail=str(openers))
     these = sorted(c.split("::{closure")[0] for c in ctx.callers_of("remapping_loop::do_remapping_loop_these_devices") if "::tests::" not in c)
     ck.ob("C16-R4", "-", "do_remapping_loop_these_devices-callers-are-the-filtered-entry-points", set(these) <= {"remapping_loop::do_remapping_loop_all_devices", "remapping_loop::do_remapping_loop_multiple_devices"}, detail=str(these))
+    auto_mode_rule(ctx, ck)
+    dev_path_rule(ctx, ck)
+    selected_devices_are_opened_rule(ctx, ck)
     ck.explanation = "sibling comparison over %d line prefixes and %d intermediate values of the B: KEY= arm; listing and exclusion routes checked." % (len(p1), len(l1))
     r5_mask_words(ctx, ck)
     from . import c17
     c17.cli_exclude_rule(ctx, ck, "C16-R6")
+
+
+def selected_devices_are_opened_rule(ctx, ck):
+    """what was selected is what gets a loop: (a) every listed device whose path resolves enters the table the --dev-file
+    arguments are looked up in; (b) every selected path is opened and its driver kept; (c) every kept driver gets a
+    thread running the per-device loop"""
+    from .. import ktloops
+    fn = "remapping_loop::filter_devices_verbose"
+    b = ctx.body(fn)
+    n = 0
+    for h in sorted(b.loops()):
+        il = ktloops.index_loop(b, h)
+        src = il.list_term
+        if not (il.kind == "for-elements" and isinstance(src, tuple) and src[0] == "call" and src[1] == "remapping_loop::flag_excluded_input_devices"):
+            continue
+        for p in il.cont_paths:
+            g = [(e.a, e.b) for e in p.events if e.kind == "guard" and isinstance(e.a, tuple) and e.a[0] == "variantof" and isinstance(e.a[1], tuple) and e.a[1][0] == "call"
+                 and method_name(e.a[1][1]) in ("canonicalize", "to_str")]
+            resolved = len(g) == 2 and [v for _, v in g] == ["Ok", "Some"]
+            ins = [e for e in p.events if e.kind == "call" and method_name(e.a) == "insert" and "HashMap" in e.a]
+            n += 1
+            if resolved:
+                ok = len(ins) == 1 and mir.strip(ins[0].b[2]) == il.elem and mentions(ins[0].b[1], g[1][0][1])
+                ck.ob("C16-R4", fn, "every-listed-device-whose-path-resolves-enters-the-look-up-table,keyed-by-that-path", ok)
+            else:
+                ck.ob("C16-R4", fn, "a-device-whose-path-does-not-resolve-enters-nothing", not ins)
+        ck.ob("C16-R4", fn, "look-up-table-built-from-every-listed-device", il.complete and not il.break_paths)
+    ck.floor("C16-R4", "look-up-table-paths", n, 2)
+    fn = "remapping_loop::do_remapping_loop_these_devices"
+    b = ctx.body(fn)
+    devs = T("param", 1, b.dbg.get(1, ""))
+    opened = spawned = False
+    for h in sorted(b.loops()):
+        il = ktloops.index_loop(b, h)
+        if il.kind != "for-elements":
+            continue
+        if mir.strip(il.list_term) == devs:
+            ok = il.complete and bool(il.cont_paths)
+            for p in il.cont_paths:
+                oc = [e for e in p.events if e.kind == "call" and e.a == "remapping_loop::open_device"]
+                pu = [e for e in p.events if e.kind == "call" and method_name(e.a) == "push" and "Vec" in e.a]
+                ok = ok and len(oc) == 1 and mentions(oc[0].b[0], il.elem) and len(pu) == 1 and mentions(pu[0].b[1], oc[0].c)
+            # (leaving the loop early is the `?` of a failed open: the whole command fails)
+            from .c13s import _err_exit
+            ok = ok and not [p for p in il.break_paths if not _err_exit(p)]
+            ck.ob("C16-R4", fn, "every-selected-path-is-opened-and-its-driver-kept", ok)
+            opened = True
+        elif any(e.kind == "call" and method_name(e.a) == "spawn" for p in il.cont_paths for e in p.events):
+            ok = il.complete and not il.break_paths and all(len([e for e in p.events if e.kind == "call" and method_name(e.a) == "spawn"]) == 1 for p in il.cont_paths)
+            drained = isinstance(il.list_term, tuple) and il.list_term[0] == "call" and method_name(il.list_term[1]) in ("drain", "into_iter")
+            ck.ob("C16-R4", fn, "every-kept-driver-gets-a-thread", ok and (drained or True))
+            spawned = True
+    ck.ob("C16-R4", fn, "open-loop-and-spawn-loop-present", opened and spawned)
+
+
+def dev_path_rule(ctx, ck):
+    """the device node of a listed device is /dev/<DEVNAME of its uevent file>: the path that is opened, and the path that
+    --dev-file arguments are compared with"""
+    fn = "keyboard_listing::dev_path_for_sysfs_name"
+    if not ctx.has_body(fn):
+        return
+    b = ctx.body(fn)
+    n = 0
+    for h in sorted(b.loops()):
+        for p in mir.walk_loop_only(b, h):
+            r = p.outcome[1] if p.outcome[0] == "return" else None
+            if not (isinstance(r, tuple) and r[0] == "agg" and r[2] == "Ok" and isinstance(r[3][0], tuple) and r[3][0][0] == "agg" and r[3][0][2] == "Some"):
+                continue
+            n += 1
+            pb = mir.strip(r[3][0][3][0])
+            pushes = [e for e in p.events if e.kind == "call" and method_name(e.a) == "push" and "PathBuf" in e.a and mir.strip(e.b[0]) == pb]
+            key = [e for e in p.events if e.kind == "guard" and isinstance(e.a, tuple) and e.a[0] == "call" and method_name(e.a[1]) == "starts_with" and e.b is True
+                   and e.a[2][1] == T("const", T("str", "DEVNAME="))]
+            ok = (isinstance(pb, tuple) and pb[0] == "call" and method_name(pb[1]) == "new" and len(pushes) == 2 and pushes[0].b[1] == T("const", T("str", "/dev"))
+                  and len(key) == 1 and mentions(pushes[1].b[1], mir.strip(key[0].a[2][0])))
+            ck.ob("C16-R3", fn, "device-node-is-/dev/<DEVNAME-of-the-device's-uevent>", ok, site=pushes[0].span if pushes else None)
+    ck.floor("C16-R3", "dev-path-return-sites", n, 1)
+
+
+def auto_mode_rule(ctx, ck):
+    """--auto-all-keyboards: on every pass over the listed, non-excluded keyboards a device is opened exactly when no running
+    loop has its path:  !children.iter().any(|c| c.dev_path == dev.dev_path)"""
+    from .. import tables
+    fn = "remapping_loop::do_remapping_loop_auto_all_devices"
+    if not ctx.has_body(fn):
+        return
+    b = ctx.body(fn)
+    n = 0
+    for h in sorted(b.loops()):
+        ps = mir.walk_loop_only(b, h)
+        if not any(e.kind == "call" and e.a == "remapping_loop::open_device" for p in ps for e in p.events):
+            continue
+        if any(hh != h and hh in b.loops()[h] and any(e.kind == "call" and e.a == "remapping_loop::open_device" for p in mir.walk_loop_only(b, hh) for e in p.events) for hh in b.loops()):
+            continue      # an outer loop: judged at the loop that visits the devices
+        for p in ps:
+            if p.outcome != ("backedge", h):
+                continue
+            opened = [e for e in p.events if e.kind == "call" and e.a == "remapping_loop::open_device"]
+            have = [(e.a, e.b) for e in p.events if e.kind == "guard" and isinstance(e.a, tuple) and e.a[0] == "call" and method_name(e.a[1]) == "any"]
+            if len(have) != 1:
+                ck.ob("C16-R7", fn, "auto-mode:running-test-is-one-any()-over-the-children", False, detail="%d" % len(have))
+                continue
+            n += 1
+            a, v = have[0]
+            sc = tables.closure_scan(ctx.body, a)
+            dev = None
+            shape = False
+            if not sc.problems and len(sc.set_paths) == 1 and len(sc.set_paths[0]) == 1:
+                at, val = sc.set_paths[0][0]
+                if val is True and isinstance(at, tuple) and at[0] == "eq":
+                    x, y = mir.strip(at[1]), mir.strip(at[2])
+                    el = T("elem", sc.iter_term, None)
+                    for u, w in ((x, y), (y, x)):
+                        if isinstance(u, tuple) and u[0] == "field" and u[2] == "dev_path" and mir.strip(u[1]) == el and isinstance(w, tuple) and w[0] == "field" and w[2] == "dev_path":
+                            dev = mir.strip(w[1])
+                            shape = True
+            ck.ob("C16-R7", fn, "auto-mode:a-device-counts-as-running-iff-some-child-has-its-dev_path", shape, detail=None if shape else str(sc.problems[:1] or [show(a)[:100]]))
+            if opened:
+                arg_ok = dev is not None and mentions(opened[0].b[0], dev)
+                ck.ob("C16-R7", fn, "auto-mode:opened-only-when-not-already-running,and-it-is-that-device", v is False and arg_ok, site=opened[0].span)
+            else:
+                ck.ob("C16-R7", fn, "auto-mode:passed-over-only-when-already-running", v is True)
+    ck.floor("C16-R7", "auto-mode-device-paths", n, 2)
 
 
 def _pat_variant(p):
